@@ -68,8 +68,11 @@ from . import c03_gen as gen
 
 LEVEL = "exploration"
 
-PARSE_BUDGET = 400  # calls of parser.parse allowed for ONE input (unchanged tree: measured max is far below)
-WALL_S = 2.0  # alarm per input, in CPU seconds of the worker (the machine may be shared), wall backstop 15 x that
+PARSE_BUDGET = 400  # calls of parser.parse allowed for ONE input (unchanged tree: measured max is 52)
+WORK_BUDGET = 50_000  # characters handed to subproc_toks for ONE input (inputs here are <= ~120 characters; a line
+# that recovery keeps re-wrapping doubles per retry - 2**(2*lines+10) - which is a hang for a dozen input lines)
+WALL_S = 5.0  # alarm per input, in CPU seconds of the worker (the machine may be shared), wall backstop 15 x that;
+# an alarm counts only if it repeats on re-running the same input
 MAX_TERM_VIOLS_PER_WORKER = 12  # after that many budget/alarm aborts a worker stops exploring (cap is reported)
 
 BOUND = ("ok", "ctxm", "ev", "xs")
@@ -93,6 +96,13 @@ class _Budget(BaseException):
 
 class _Alarm(BaseException):
     pass
+
+
+class _Work(BaseException):
+    pass
+
+
+_WORK = [0]
 
 
 def _on_alarm(signum, frame):
@@ -148,6 +158,23 @@ def _init_worker():
 
         counting_parse._c03_counting = True
         p.parse = counting_parse
+    # module-level name rebinding in the namespaces of the modules under test (no source hook): both callers of
+    # subproc_toks (phase-1 recovery loop, phase-2 transformer) go through a character counter
+    import xonsh.execer as _ex
+    import xonsh.parsers.ast as _xast
+
+    for mod in (_ex, _xast):
+        f = mod.subproc_toks
+        if not getattr(f, "_c03_counting", False):
+
+            def counting_toks(line, *a, _f=f, **k):
+                _WORK[0] += len(line)
+                if _WORK[0] > WORK_BUDGET:
+                    raise _Work()
+                return _f(line, *a, **k)
+
+            counting_toks._c03_counting = True
+            mod.subproc_toks = counting_toks
     _TERM_ABORTS[0] = 0
     _MAXCNT[0] = 0
     _FAILS.clear()
@@ -165,8 +192,20 @@ def _where(e):
 
 
 def guarded_parse(src, names=None):
-    """-> ('tree', ast) | ('none',) | ('syntax', msg) | ('exc', type, function, msg) | ('budget', n) | ('alarm', s)"""
+    """-> (outcome, parser.parse calls, cpu seconds); outcome =
+    ('tree', ast) | ('none',) | ('syntax', msg) | ('exc', type, function, msg) | ('budget', ..) | ('work', ..) | ('alarm', ..)"""
+    for attempt in range(3):
+        out, n, dt = _guarded_parse_once(src, names)
+        if out[0] != "alarm":
+            break  # only a repeatable time-out counts (the deterministic budgets are the primary criterion)
+    if out[0] in ("budget", "alarm", "work"):
+        _TERM_ABORTS[0] += 1
+    return out, n, dt
+
+
+def _guarded_parse_once(src, names):
     _CNT[0] = 0
+    _WORK[0] = 0
     ctx = set() if names is None else set(names)
     t0 = time.process_time()
     signal.setitimer(signal.ITIMER_PROF, WALL_S)
@@ -182,14 +221,14 @@ def guarded_parse(src, names=None):
         out = ("syntax", str(e)[:160])
     except _Budget:
         out = ("budget", f"> {PARSE_BUDGET} parser.parse calls")
+    except _Work:
+        out = ("work", f"> {WORK_BUDGET} characters handed to subproc_toks")
     except _Alarm:
-        out = ("alarm", f"> {WALL_S} s")
+        out = ("alarm", f"> {WALL_S} cpu-s")
     except RecursionError as e:
         out = ("exc", "RecursionError", _where(e), "")
     except Exception as e:  # noqa: BLE001 - exactly what part B is about
         out = ("exc", type(e).__name__, _where(e), str(e)[:160])
-    if out[0] in ("budget", "alarm"):
-        _TERM_ABORTS[0] += 1
     _MAXCNT[0] = max(_MAXCNT[0], _CNT[0])
     return out, _CNT[0], time.process_time() - t0
 
@@ -252,7 +291,7 @@ def execute(src, rcs, flags=FLAGSETS[0]):
     _XSH.env["XONSH_SUBPROC_RAISE_ERROR"], _XSH.env["XONSH_SUBPROC_CMD_RAISE_ERROR"] = flags
     g = _globals()
     exc = None
-    _CNT[0] = -10**9  # execution is not under the parse budget (the pair was parsed under it before)
+    _CNT[0] = _WORK[0] = -(10**12)  # execution is not under the parse budgets (the pair was parsed under them before)
     with _quiet():
         signal.setitimer(signal.ITIMER_REAL, 20.0)
         try:
@@ -353,7 +392,7 @@ def check_pair(chain, pos, want_exec=False):
     re_, ne, te = guarded_parse(expl, names)
     res = {"bare": bare, "explicit": expl, "parses": [nb, ne], "executed": 0}
     for side, r in (("bare", rb), ("explicit", re_)):
-        if r[0] in ("budget", "alarm"):
+        if r[0] in ("budget", "alarm", "work"):
             res.update(status="hang", side=side, detail=list(r))
             return res
         if r[0] == "exc":
@@ -460,7 +499,7 @@ def _sig(res):
     if s == "internal":
         return f"internal:{res['side']}:{res['detail'][1]}@{res['detail'][2]}"
     if s == "hang":
-        return f"hang:{res['side']}"
+        return f"hang/{res['detail'][0]}:{res['side']}"
     return s
 
 
@@ -734,10 +773,10 @@ def _do_prefix(item):
         if dt > out["slow"]:
             out["slow"], out["slow_in"] = dt, s
         if kind in ("internal", "nonterm"):
-            mk = (s, kind, sig)
-            m = b_minimise(s, kind, sig) if kind == "internal" else s
-            if kind == "nonterm":
-                # keep the first (shortest) spinning input of a worker as its own representative
+            if kind == "internal" or sig == "work":
+                m = b_minimise(s, kind, sig)  # every evaluation is bounded by the budgets
+            else:
+                # a spinning input is not minimised (each attempt costs a full budget): first one of this worker
                 m = _BMIN.setdefault((kind, sig), s)
             out["viols"].append(b_violation(s, m, kind, sig, np_, dt))
     return out
@@ -749,9 +788,10 @@ def b_violation(s, m, kind, sig, np_, dt):
         clause = "detection raised an internal exception (neither a program nor SyntaxError)"
         obs = f"{sig} for input {s!r}"
     else:
-        key = f"B:nonterm:{sig}"
+        # blank lines only add retries (2 per line): the key names the line that keeps growing
+        key = f"B:nonterm:{sig}" + (f":{m.replace(chr(10), '')!r}" if sig == "work" else "")
         clause = "detection did not terminate within the per-input budget"
-        obs = f"{sig}: {np_ if np_ > 0 else '?'} parser.parse calls, {dt:.2f} s for input {s!r}"
+        obs = f"{sig} budget exceeded ({np_} parser.parse calls, {dt:.2f} cpu-s) for input {s!r}; budgets: {PARSE_BUDGET} parser.parse calls, {WORK_BUDGET} characters through subproc_toks, {WALL_S} cpu-s"
     return {"key": key, "clause": clause, "case": {"part": "B", "input": s, "minimal": m}, "observed": obs, "expected": "a tree, None (empty input) or SyntaxError within the budget", "note": ""}
 
 
@@ -845,7 +885,7 @@ def run(ctx):
         part_b_outcomes=ocb,
         part_b_max_parser_calls=mp["maxparses"],
         part_b_slowest_ms=round(sl["slow"] * 1000),
-        budgets={"parser_calls_per_input": PARSE_BUDGET, "wall_s_per_input": WALL_S},
+        budgets={"parser_calls_per_input": PARSE_BUDGET, "subproc_toks_characters_per_input": WORK_BUDGET, "cpu_s_per_input": WALL_S},
     )
     ctx.assumptions += [
         "command words are callable aliases (ca.. unthreaded, ta../pa.. threaded); a real child process would be wrapped the same way since wrapping happens before any command lookup",
@@ -862,7 +902,7 @@ def replay(rec):
         kind, sig, n, dt = b_outcome(s)
         print("input    :", repr(s), " minimal:", repr(case.get("minimal")))
         print("observed :", kind, sig or "", f"({n} parser.parse calls, {dt * 1000:.1f} ms)")
-        print("expected : tree / None / SyntaxError within", PARSE_BUDGET, "parser calls and", WALL_S, "s")
+        print("expected : tree / None / SyntaxError within", PARSE_BUDGET, "parser.parse calls,", WORK_BUDGET, "characters through subproc_toks and", WALL_S, "cpu-s")
         return 1 if kind in ("internal", "nonterm") else 0
     chain, pos = case["chain"], case["pos"]
     _EXEC_LEFT[0] = 10**6
